@@ -206,7 +206,11 @@ impl Label {
     /// Panics if `start` is beyond the end of `slice`.
     #[must_use]
     pub fn iter_slice(slice: &[u8], start: usize) -> SliceLabelsIter<'_> {
-        SliceLabelsIter { slice, start }
+        SliceLabelsIter {
+            slice,
+            start,
+            len: 0,
+        }
     }
 
     /// Returns a reference to the underlying octets slice.
@@ -738,6 +742,12 @@ pub struct SliceLabelsIter<'a> {
     ///
     /// As a life hack, we use `usize::MAX` to fuse the iterator.
     start: usize,
+
+    /// The number of name octets produced so far.
+    ///
+    /// A name is at most 255 octets long. Anything longer must be a
+    /// compression loop, so we stop.
+    len: usize,
 }
 
 impl<'a> Iterator for SliceLabelsIter<'a> {
@@ -751,6 +761,12 @@ impl<'a> Iterator for SliceLabelsIter<'a> {
         loop {
             match Label::split_from(&self.slice[self.start..]) {
                 Ok((label, _)) => {
+                    self.len += label.len() + 1;
+                    if self.len > 255 {
+                        // Pointers looping back through labels.
+                        self.start = usize::MAX;
+                        return None;
+                    }
                     if label.is_root() {
                         self.start = usize::MAX;
                     } else {
@@ -760,7 +776,7 @@ impl<'a> Iterator for SliceLabelsIter<'a> {
                 }
                 Err(SplitLabelError::Pointer(pos)) => {
                     let pos = pos as usize;
-                    if pos > self.start {
+                    if pos >= self.start {
                         // Incidentally, this also covers the case where
                         // pos points past the end of the message.
                         self.start = usize::MAX;
